@@ -70,7 +70,7 @@ class K:
 
 
 def delegating_classes():
-    """classes whose __getitem__ is cls(data[i]) (spatialvector.py:129): tied on the slice / index grid only"""
+    """the SpatialVector classes, which have their own __getitem__ over data[i] (spatialvector.py:129): tied on the slice / index grid only"""
     return [K(c.__name__, c, (lambda c: lambda t: c([t, 0, 0, 0, 0, 0]))(c), lambda a: a[0], 6, False, lambda: SE3(), lambda: Twist3())
             for c in (SpatialVelocity, SpatialAcceleration, SpatialForce, SpatialMomentum)]
 
@@ -97,7 +97,8 @@ def classes():
 #   ('P', i) ('R',) ('C',) ('CI',) ('CC',) ('CF', tags) ('AL', n) ('EM',)
 EXC = {'IndexError': 1, 'ValueError': 2, 'TypeError': 3, 'AssertionError': 4}
 # root causes the model still mirrors.  (Repaired in /repo and therefore NOT listed, so that a regression is a VIOLATION:
-# slice index arithmetic -- fix 639aa3a; extend by a single-valued object appending matrix rows -- fix e8a8671.)
+# slice index arithmetic -- fix 639aa3a; extend by a single-valued object appending matrix rows -- fix e8a8671;
+# empty slice of the SpatialVector classes raising IndexError -- fix 40af48b.)
 KEYS = {2: 'oracle:construct-from-empty-list:IndexError',
         4: 'oracle:single-value-required:empty-object-stored-as-element'}
 OPNAME = {'G': 'getitem', 'S': 'getitem-slice', 'I': 'iter', 'L': 'len', 'T': 'setitem', 'D': 'delitem', 'X': 'delitem-slice',
@@ -713,7 +714,7 @@ def grid(ctx, model, cmp, ks):
                                      {'class': k.name, 'length': n, 'op': op_py(op)})
                             x = k.build(l)
     ctx.stats['slice-grid-cells-differing-from-list'] = census
-    ctx.sample({'kind': 'grid', 'cells per class': 6 * (len(slices) + 15), 'differing from the list (C10_slice_grid_census: 0 for SMUserList.__getitem__, 7422 for the delegating classes)': census})
+    ctx.sample({'kind': 'grid', 'cells per class': 6 * (len(slices) + 15), 'differing from the list (C10_slice_grid_census: 0 for every class)': census})
 
 
 def kernel_crosscheck(ctx, model, ks, nseq):
